@@ -156,8 +156,13 @@ def _stride_ok(ar: ast.Call, sl: SearchLoop, reshape_width_of: str):
     w = nz.poly(step)
     okstop = False
     for n in ast.walk(stop):
-        if isinstance(n, ast.Name) and not padd(nz.poly(stop), pmul(w, nz.poly(n)), -1):
-            okstop = True
+        # (the batch size by name, or read off a tensor: `next_src.shape[0]`)
+        if isinstance(n, (ast.Name, ast.Subscript, ast.Call, ast.Attribute)) and n is not stop:
+            try:
+                if not padd(nz.poly(stop), pmul(w, nz.poly(n)), -1):
+                    okstop = True
+            except Exception:
+                continue
     if not okstop:
         return False, f"stops at `{u(stop)}` which is not stride * batch size"
     # the width the extension scores were shaped with
